@@ -1,8 +1,30 @@
 package main
 
-import "fmt"
+import (
+	"fmt"
+	"os"
+	"strings"
+
+	"golang.org/x/tools/go/ssa"
+)
 
 func debugDump(c *Ctx, what string) {
+	if strings.HasPrefix(what, "phis:") {
+		fn := c.Fn(strings.TrimPrefix(what, "phis:"))
+		if fn == nil {
+			fmt.Println("no such function")
+			return
+		}
+		fn.WriteTo(os.Stdout)
+		for _, b := range fn.Blocks {
+			for _, in := range b.Instrs {
+				if ph, ok := in.(*ssa.Phi); ok {
+					fmt.Printf("phi %s in block %d alias=%v\n", ph.Name(), b.Index, phiAlias[ph])
+				}
+			}
+		}
+		return
+	}
 	if what == "loops" {
 		p := c.prov()
 		for f := range p.Zone {
